@@ -7,6 +7,7 @@
 // Outside the claim: grids with more than 4 cells, trees with more than 4 nodes; parent links of trees (C-property
 // of the tree container, not of value conservation).
 //@property C05
+//@import C09_tree.cpp only=^h_massign_first
 #include "C05_common.hpp"
 #include <fcppt/container/grid/apply.hpp>
 #include <fcppt/container/grid/map.hpp>
